@@ -403,17 +403,17 @@ Print Assumptions sequential_script_oracle.
 
 (* Dependency-version bookkeeping of nodes.Struct (struct_node.go Outdated / updateUsedDependencyVersions): comparing
    the recorded versions element by element notices EVERY change; folding them into one stamp `s<<sh ^ v` (seeded
-   change C13-I) does not: one dependency re-evaluated once (from an even version) and another 2^sh times leaves the
-   stamp unchanged -- for sh = 5: [0;0] and [1;32]. *)
+   change C13-I) does not, whatever the shift sh and the seed s0: one dependency re-evaluated once (from an even
+   version) and the next one 2^sh times leaves the stamp unchanged -- for sh = 5, s0 = 2: [0;0] and [1;32]. *)
 Theorem dependency_versions_exact : forall recorded current,
   stale_by_list recorded current = false <-> recorded = current.
 Proof. exact stale_by_list_exact. Qed.
 Print Assumptions dependency_versions_exact.
 
 Theorem folded_dependency_stamp_refuted :
-  (forall sh a b, N.testbit b sh = false ->
-     fold_stamp sh [N.succ (2 * a); (b + 2 ^ sh)%N] = fold_stamp sh [(2 * a)%N; b]) /\
-  stale_by_list [0; 0]%N [1; 32]%N = true /\ stale_by_stamp 5 [0; 0]%N [1; 32]%N = false.
+  (forall sh s0 a b, N.testbit b sh = false ->
+     fold_stamp sh s0 [N.succ (2 * a); (b + 2 ^ sh)%N] = fold_stamp sh s0 [(2 * a)%N; b]) /\
+  stale_by_list [0; 0]%N [1; 32]%N = true /\ stale_by_stamp 5 2 [0; 0]%N [1; 32]%N = false.
 Proof. split; [exact fold_stamp_collides | exact folded_stamp_refuted]. Qed.
 Print Assumptions folded_dependency_stamp_refuted.
 
